@@ -17,6 +17,7 @@
      O <entries> <last>        content/oci listTags
      X <limit> <found> <size> <items> <at> <cbfail>   referrers tag schema
      P <U|S|N> <status> <nameunknown> <ctype>   pingReferrers: answer (1|0|E), state, requests
+     CS <scheme> <host> <the fields of a C line>   the whole page loop on strings (raw requests)
      U <T|K|R> <n> <scheme> <host> <base path> <base raw query> <Link header>   the next request on strings
      U0 <T|K|R> <n> <at> <last>     raw query of the first request
      QS <raw> {<key> <value>}       setQueryParams
@@ -108,6 +109,34 @@ let run_client toks =
           { u_path = str_of_hex path; u_query = query_of_tok q } (str_of_hex last))
   | _ -> failwith "client line"
 
+(* the loop on strings for a CS line: sch host <the fields of a C line> *)
+let run_client_s toks =
+  match toks with
+  | sch :: host :: kd :: n :: limit :: at :: last :: cbf :: path :: _ :: nresp :: rest ->
+      let cfg = { c_kind = kind_of_tok kd; c_n = z_of_int (int_of_string n);
+                  c_limit = z_of_int (int_of_string limit); c_at = str_of_hex at } in
+      let nr = int_of_string nresp in
+      let rec parse k toks =
+        if k = 0 then [] else
+        let (r, toks') = take 13 toks in
+        match r with
+        | [st; nu; ct; js; dl; tl; its; links; fh; fa; _; _; _] ->
+          { rs_status = n_of_int (int_of_string st); rs_name_unknown = bool_tok nu; rs_ctype = str_of_hex ct;
+            rs_json_ok = bool_tok js;
+            rs_doc_len = n_of_int (int_of_string dl); rs_total_len = n_of_int (int_of_string tl);
+            rs_items = items_of_tok its; rs_links = strs_of_tok links; rs_fhdr = str_of_hex fh;
+            rs_fann = str_of_hex fa } :: parse (k - 1) toks'
+        | _ -> failwith "resp" in
+      let script = Array.of_list (parse nr rest) in
+      let dead = { rs_status = n_of_int 599; rs_name_unknown = false; rs_ctype = []; rs_json_ok = false; rs_doc_len = N0;
+                   rs_total_len = N0; rs_items = []; rs_links = []; rs_fhdr = []; rs_fann = [] } in
+      let serve i _ = let i = int_of_nat i in if i < Array.length script then script.(i) else dead in
+      let cbfail = int_of_string cbf in
+      let q0 = (match cfg.c_kind with KReferrers -> referrers_q0 cfg.c_at | _ -> []) in
+      loop_s (str_of_hex sch) (str_of_hex host) serve (fun k -> int_of_nat k = cbfail) cfg (nat_of_int (nr + 2)) O O
+        (str_of_hex path) q0 (str_of_hex last)
+  | _ -> failwith "client line"
+
 let () =
   iter_lines (fun l ->
     match split_ws l with
@@ -116,6 +145,13 @@ let () =
       Printf.printf "%s R %s P %d %s O %s\n" id
         (String.concat "|" (List.map tok_of_url tr.t_reqs))
         (List.length tr.t_pages) (tok_of_pages tr.t_pages) (out_name tr.t_out)
+    | id :: "CS" :: rest ->
+      (match run_client_s rest with
+       | None -> Printf.printf "%s UNJUDGED\n" id
+       | Some tr ->
+         Printf.printf "%s R %s P %d %s O %s\n" id
+           (match tr.st_reqs with [] -> "_" | rs -> String.concat "|" (List.map (fun r -> hex_of_str r.sr_path ^ "?" ^ hex_of_str r.sr_query) rs))
+           (List.length tr.st_pages) (tok_of_pages tr.st_pages) (out_name tr.st_out))
     | id :: "W" :: st :: cbu :: found :: size :: tsitems :: rest ->
       let (cfg, tr) = run_client rest in
       let cbfail = (match rest with _ :: _ :: _ :: _ :: _ :: cbf :: _ -> int_of_string cbf | _ -> -1) in
